@@ -63,10 +63,16 @@ def gen_script(rng, root, files):
     uris = [lsp.file_uri(f) for f in files] + [lsp.file_uri(os.path.join(root, "missing.god")),
                                              lsp.file_uri(os.path.join(root, "nodir", "x.god")),
                                              lsp.file_uri(os.path.join(root, "notgold.txt"))]
+    # URIs that are not plain file paths: other schemes (editors pull diagnostics for virtual documents), a directory,
+    # percent-escapes, an authority
+    odd = ["untitled:Untitled-1", "git:/x/aAlpha.god?ref=HEAD", "output:extension-output-1", lsp.file_uri(root),
+           lsp.file_uri(os.path.join(root, "sub")), "file:///%E6%97%A5/a%20b.god", "file://host" + os.path.join(root, "aAlpha.god"),
+           lsp.file_uri(files[0]).replace("aAlpha", "a%41lpha"), "vscode-notebook-cell:/x.god#W0"]
     msgs = []
     for _ in range(rng.randint(1, 30)):
         k = rng.random()
-        uri = rng.choice(uris) if rng.random() < 0.85 else rng.choice(uris[-3:])
+        u = rng.random()
+        uri = rng.choice(uris) if u < 0.8 else rng.choice(uris[-3:]) if u < 0.92 else rng.choice(odd)
         pos = {"line": rng.choice([0, 1, 2, 3, 5, 8, 40, 100000]), "character": rng.choice([0, 1, 4, 7, 12, 200])}
         if k < 0.55:
             m = rng.choice(SUPPORTED_POS + SUPPORTED_DOC + SUPPORTED_ITEM)
@@ -104,12 +110,38 @@ def gen_script(rng, root, files):
     return msgs
 
 
+def gen_burst(rng, root, files):
+    """change / request / change on ONE document of some size, back to back, many rounds: the notification handler on
+    the main thread meets a worker that is still analysing the text it replaces"""
+    g = goldgen.Gen(rng, max_depth=2)
+    f = rng.choice(files)
+    uri = lsp.file_uri(f)
+    nm = os.path.basename(f)[:-4]
+    texts = []
+    for _ in range(3):
+        body, _, _ = g.gen_program(n_decls=rng.randint(12, 30), header="none")
+        texts.append("class %s (aAlpha)\n" % nm + body)
+    msgs = []
+    for i in range(rng.randint(10, 40)):
+        def change():
+            return ("notif", "textDocument/didChange", {"textDocument": {"uri": uri, "version": i + 2}, "contentChanges": [{"text": rng.choice(texts)}]})
+        msgs.append(change())
+        m = rng.choice(SUPPORTED_POS + SUPPORTED_DOC)
+        pos = {"line": rng.randint(0, 30), "character": rng.choice([0, 2, 4, 7])}
+        msgs.append(("req", m, {"textDocument": {"uri": uri}, "position": pos} if m in SUPPORTED_POS else {"textDocument": {"uri": uri}}))
+        if rng.random() < 0.8:
+            msgs.append(change())
+        if rng.random() < 0.1:
+            msgs.append(("notif", rng.choice(["textDocument/didSave", "textDocument/didClose"]), {"textDocument": {"uri": uri}}))
+    return msgs
+
+
 def run_script(binary, seed):
     rng = random.Random(seed)
     root = tempfile.mkdtemp(prefix="goldverif-c01-")
     try:
         files = make_workspace(rng, root)
-        msgs = gen_script(rng, root, files)
+        msgs = gen_burst(rng, root, files) if seed % 8 == 7 else gen_script(rng, root, files)
         s = lsp.Session(binary, root)
         init = s.initialize(root)
         if init is None:
@@ -187,7 +219,21 @@ def correspondence(ctx, broken_obligations=()):
             v = core.Violation(bad, path, True)
             v.coverage = dict(programs=len(results), evaluations=len(results), disagreements_checked=disagreements)
             raise v
-    cov = dict(programs=len(results), evaluations=len(results),
+    # forced schedules at the yield points (hooks build): a request parked at each yield point while the change
+    # notification runs (and the other way round) - everything must return
+    hb = diff.Engines.harness(hooks=True)
+    fcases = ["two:changed:%d:%d:%s:c;%s" % (a, b, o, k) for a in range(4) for b in (4, 3) for o in ("ab", "ba")
+              for k in ("completion", "diagnostics", "definition")]
+    fcases += ["%s;%s" % (sc, k) for sc in ("change_window", "analyze_pair", "publish_pair", "parse_pair") for k in ("completion", "diagnostics", "definition")]
+    fouts = core.run_lines(hb, "sched", fcases, shards=min(core.NCPU, len(fcases)))
+    for c, o in zip(fcases, fouts):
+        if o.startswith(("HANG", "PANIC", "CRASH")):
+            bad = "forced schedule %s: a request or the change notification never returned or panicked (%s)" % (c, o)
+            path = core.write_replay(ctx.pid, ctx.seed, {"engine": "E-sched", "case": c, "observed": o, "expected": bad})
+            v = core.Violation(bad, path, True)
+            v.coverage = dict(programs=len(results), evaluations=len(results), disagreements_checked=disagreements)
+            raise v
+    cov = dict(programs=len(results), evaluations=len(results), forced_schedules_returning=len(fcases),
                distinct_nontrivial=len(set(r["script"] for r in results if r.get("n_msgs", 0) >= 3)),
                disagreements_checked=disagreements, message_histogram=hist,
                rule="generated pipelined scripts of 1..30 messages (7 supported methods, 6 unsupported, 4+2 notification kinds; URIs of well-formed, "
@@ -199,6 +245,14 @@ def correspondence(ctx, broken_obligations=()):
 
 
 def replay(ctx, rep):
+    if rep.get("engine") == "E-sched":
+        o = core.run_lines(diff.Engines.harness(hooks=True), "sched", [rep["case"]], shards=1)[0]
+        print("forced schedule:", rep["case"]); print("observed:", o)
+        if o.startswith(("HANG", "PANIC", "CRASH")):
+            print("VIOLATION property=C01 replay=%s" % rep.get("how_to_rerun", "?").split()[-1])
+            return 1
+        print("property holds on this schedule")
+        return 0
     binary = lsp.build_server()
     r = run_script(binary, rep["case"])
     bad = oracle(r)
